@@ -591,12 +591,16 @@ pub fn building_g(p: &BParams) -> BoxedStrategy<BuildingG> {
             let reg_p = if has_elec { p.regime_pct as f64 / 100.0 } else { 0.0 };
             let p1 = p.clone();
             let needs = if p.with_needs {
-                // mode 0: as drawn; 1: all values negative (absorbed energy, e.g. cooling); 2: all zero
+                // mode 0: as drawn; 1: all values negative (absorbed energy, e.g. cooling); 2: all zero;
+                // 3: odd hundredths negative (mixed signs). Magnitudes below 1 kWh are over-represented:
+                // signs and small values are where a formatter goes wrong
+                let dv = prop_oneof![1 => Just(0u32), 2 => 1u32..=60, 1 => 1u32..=1_000, 6 => 0u32..=200_000];
                 vec(
-                    (select(vec![Srv::ACS, Srv::CAL, Srv::REF]), vec(0u32..=200_000, n), prop_oneof![8 => Just(0u8), 1 => Just(1u8), 1 => Just(2u8)]).prop_map(|(s, v, mode)| {
+                    (select(vec![Srv::ACS, Srv::CAL, Srv::REF]), vec(dv, n), prop_oneof![7 => Just(0u8), 1 => Just(1u8), 1 => Just(2u8), 1 => Just(3u8)]).prop_map(|(s, v, mode)| {
                         let v: Vec<i64> = v.iter().map(|x| match mode {
                             1 => -(*x as i64),
                             2 => 0,
+                            3 if *x % 2 == 1 => -(*x as i64),
                             _ => *x as i64,
                         }).collect();
                         (s, v)
